@@ -95,7 +95,7 @@ func c06RRDirCE(root bool) {
 	// KF-C06-6: Directory.entriesToBytes hands the same list of continuation blocks to every entry,
 	// so every CE record of a directory points to the first block, and Finalize writes the areas
 	// back to back instead of one per block: all but the first continuation area are lost
-	vp.KnownPanic("KF-C06-6", "directoryentrysystemuseextension.go")
+	vp.KnownPanic("KF-C06-6", "directoryentrysystemuseextension.go | slice bounds out of range")
 	got, err := c06ReadDir(fsm, dir.location, size)
 	vp.AllowPanic()
 	vp.AssertUnless("KF-C06-6", true, err == nil, "directory parsed")
